@@ -360,3 +360,46 @@ func c10IntRange(c *engine.Ctx) {
 		}
 	})
 }
+
+// c10SecondOrder: triples whose determinant is a difference of SECOND-order terms. P = (u,u) lies on
+// the diagonal through C = (c,c); A = P + (s,r) and B = P - (r,s) are its two images under a tiny
+// displacement and the mirrored, negated one. Relative to C the determinant is exactly r^2 - s^2:
+// the products of the large parts cancel, the mixed terms cancel, and only the product of the
+// roundoff-sized parts is left. Every u, c, s, r over small menus (s, r between 2^-95 and 2^-70,
+// also with a few low-order bits set), the anti-diagonal mirror image, every argument order; the
+// exact sign from full-precision arithmetic (c10Exec).
+func c10SecondOrder(c *engine.Ctx) {
+	us := []float64{math.Ldexp(1, -60), math.Ldexp(1, -30), 0.1, 3, -7.25}
+	cs := []float64{1, -5, 1024, 0.3}
+	var tiny []float64
+	for _, e := range []int{-95, -90, -80, -70} {
+		for _, m := range []float64{1, 1 + math.Ldexp(1, -20), 1.5, 1 + math.Ldexp(1, -52)} {
+			tiny = append(tiny, math.Ldexp(m, e), -math.Ldexp(m, e))
+		}
+	}
+	type job struct{ u, cc float64 }
+	var jobs []job
+	for _, u := range us {
+		for _, cc := range cs {
+			jobs = append(jobs, job{u, cc})
+		}
+	}
+	c.Parallel(len(jobs), func(i int) {
+		j := jobs[i]
+		for _, s := range tiny {
+			for _, r := range tiny {
+				for _, anti := range []float64{1, -1} {
+					a := [2]float64{j.u + s, anti * (j.u + r)}
+					b := [2]float64{j.u - r, anti * (j.u - s)}
+					p := [2]float64{j.cc, anti * j.cc}
+					pts := [3][2]float64{a, b, p}
+					for _, o := range [6][3]int{{0, 1, 2}, {1, 2, 0}, {2, 0, 1}, {1, 0, 2}, {0, 2, 1}, {2, 1, 0}} {
+						A, B, P := pts[o[0]], pts[o[1]], pts[o[2]]
+						c.Count("second_order_cases", 1)
+						c10Exec(c, c10Case{Pts: []ref.F{ref.F(A[0]), ref.F(A[1]), ref.F(B[0]), ref.F(B[1]), ref.F(P[0]), ref.F(P[1])}})
+					}
+				}
+			}
+		}
+	})
+}
